@@ -16,7 +16,7 @@ EXPLANATION = (
     "would-block write fails start, success means written >= size (so input is delivered completely or start fails); "
     "(N4) reproc_read / reproc_write make at most one read()/write() per call, no poll, no retry loop, so their blocking "
     "behaviour is exactly the descriptor's mode; the only waits in start's parent side are the error-pipe read and the reap of "
-    "a child that already reported failure.")
+    "a child that already reported failure. The mode helper is also checked semantically: whenever it reports success it has written the flags back to the descriptor it was given, whatever its number (N0w); a call without a model inside reproc_read / reproc_write (a lock, a sleep) counts as a waiting call (N4).")
 ASSUMPTIONS = [
     "clang 14 parser/CFG and the fact extractor are correct",
     "read()/write() on an O_NONBLOCK pipe return at once (data, partial count, EOF/EPIPE or EAGAIN); on a blocking pipe they wait only for the peer",
